@@ -209,7 +209,7 @@ def generic_pow(idx, rep, rule, te):
         if kname is None or not isinstance(n, ast.If) or not isinstance(n.test, (ast.Compare, ast.BoolOp)):
             continue
         test = int_test(n.test, kname)
-        rets = [x for st in n.body for x in ast.walk(st) if isinstance(x, ast.Return)]
+        rets = [df.effective_return(x) for st in n.body for x in ast.walk(st) if isinstance(x, ast.Return)]
         if test == "k==0" and rets:
             t = norm(te.eval_in(fi, rets[0].value))
             rep.decide(t == I, "pow-shortcut", "pow:k=0", f"A^0 returns {show(t)}", detail="" if t == I else "identity", locs=[idx.loc(fi.module, n)])
